@@ -370,12 +370,20 @@ type pieceWriter struct {
 
 func (p pieceWriter) Write(b []byte) (int, error) {
 	total := 0
-	for len(b) > 0 {
+	for piece := 0; len(b) > 0; piece++ {
 		n := p.k
 		if n > len(b) {
 			n = len(b)
 		}
-		m, err := p.w.Write(b[:n])
+		var m int
+		var err error
+		if piece%2 == 1 {
+			// every other piece the way a text-producing encoder hands bytes over: io.WriteString (which uses the
+			// destination's WriteString method when it has one)
+			m, err = io.WriteString(p.w, string(b[:n]))
+		} else {
+			m, err = p.w.Write(b[:n])
+		}
 		total += m
 		if err != nil {
 			return total, err
